@@ -916,8 +916,8 @@ impl Engine for C15 {
         // verifications find most of it cached
         let mut prefix = prefix;
         if rng.chance(1, 50) {
-            // mostly 33-70 pairs; one in six of these runs crosses 256 / 512 pairs
-            let n = if rng.chance(1, 6) { *rng.pick(&[257usize, 258, 300, 513]) } else { rng.range(33, 70) as usize };
+            // mostly 33-70 pairs; one in three of these runs crosses 256 / 512 pairs
+            let n = if rng.chance(1, 3) { *rng.pick(&[257usize, 258, 300, 513]) } else { rng.range(33, 70) as usize };
             let mut pairs = gen_pairs(rng, NKEYS, n, false);
             // half of them carry one or two invalid keys (infinity, outside the subgroup) anywhere
             // in the list; the holder of a shifted key signs, nobody signs for infinity
